@@ -1,4 +1,4 @@
-import QM.ConvDelta
+import QM.ConvArgs
 import QM.Props.C02
 /-! # C02 — "adding the key changes nothing else in the command"
 
@@ -134,4 +134,71 @@ end Cv
 namespace Cv
 /-- every documented key of [Image] has its block in the command, except the two that only name things -/
 theorem imageKeys_complete : ∀ k ∈ Gen.SUPPORTED_IMAGE_KEYS, k ∈ imageKeysRead ∨ k = s "ServiceName" ∨ k = s "ImageTag" := by decide
+end Cv
+
+namespace Cv
+open MM
+
+/-! ### .pod -/
+def podKeysRead : List Str :=
+  Gen.tbl_get_base_podman_command_inline_lookup_and_add_all_strings.map Prod.fst ++ [s "GlobalArgs"] ++ mapKeys
+    ++ Gen.tbl_handle_publish_ports_inline_lookup_and_add_all_strings.map Prod.fst ++ [s "Network"]
+    ++ Gen.tbl_from_pod_unit_string_keys.map Prod.fst ++ Gen.tbl_from_pod_unit_all_string_keys.map Prod.fst
+    ++ [s "Volume", s "PodName", s "PodmanArgs"]
+
+theorem podSegs_reads (E : Env) (path : Str) : (podSegs E path).flatMap (·.reads) = podKeysRead := by
+  unfold podSegs podKeysRead
+  simp only [List.flatMap_append, reads_rows (segAll (s "Pod")) (fun _ => rfl), reads_rows (segString (s "Pod")) (fun _ => rfl)]
+  simp [segConst, segArgs, segMulti, segMaps, segNetworks, segVolumes]
+
+theorem podKeys_nodup : podKeysRead.Nodup := by decide
+theorem podKeys_documented : ∀ k ∈ podKeysRead, k ∈ Gen.SUPPORTED_POD_KEYS := by decide
+theorem podKeys_complete : ∀ k ∈ Gen.SUPPORTED_POD_KEYS, k ∈ podKeysRead ∨ k = s "ServiceName" := by decide
+
+/-- two `.pod` units that convert (against the same name table, with the same members) and differ only in what they assign to one
+    key: their `pod create` commands coincide, argument for argument, before and after the block of that key -/
+theorem C02_pod_delta (E : Env) (path : Str) (cts : List Str) (k : Str) (hk : k ∈ podKeysRead) (u u' svc svc' : SUnit)
+    (h : AgreeExcept (s "Pod") k u u')
+    (hc : fromPod E path u cts = .ok svc) (hc' : fromPod E path u' cts = .ok svc') :
+    ∃ A g B, podSegs E path = A ++ g :: B ∧ k ∈ g.reads ∧
+      HasExec svc "ExecStartPre" (cmdOf A u ++ g.emit u ++ cmdOf B u) ∧ HasExec svc' "ExecStartPre" (cmdOf A u ++ g.emit u' ++ cmdOf B u) := by
+  obtain ⟨A, g, B, hs, hkg, e1, e2⟩ := delta_of_segs (s "Pod") (podSegs E path) (podSegs_local E path)
+    (by rw [podSegs_reads]; exact podKeys_nodup) k (by rw [podSegs_reads]; exact hk) u u' h
+  refine ⟨A, g, B, hs, hkg, ?_, ?_⟩
+  · rw [← e1]; exact fromPod_segs E path u svc cts hc
+  · rw [← e2]; exact fromPod_segs E path u' svc' cts hc'
+
+end Cv
+
+namespace Cv
+open MM
+
+/-! ### .kube -/
+def kubeKeysRead : List Str :=
+  Gen.tbl_get_base_podman_command_inline_lookup_and_add_all_strings.map Prod.fst
+    ++ [s "GlobalArgs", s "ExitCodePropagation", s "LogDriver", s "LogOpt"] ++ mapKeys ++ [s "Network", s "AutoUpdate", s "ConfigMap"]
+    ++ Gen.tbl_handle_publish_ports_inline_lookup_and_add_all_strings.map Prod.fst ++ [s "PodmanArgs", s "Yaml"]
+
+theorem kubeSegs_reads (E : Env) (path : Str) : (kubeSegs E path).flatMap (·.reads) = kubeKeysRead := by
+  unfold kubeSegs kubeKeysRead
+  simp only [List.flatMap_append, reads_rows (segAll (s "Kube")) (fun _ => rfl)]
+  simp [segConst, segArgs, segLast, segStrv, segMaps, segNetworks]
+
+theorem kubeKeys_nodup : kubeKeysRead.Nodup := by decide
+/-- every documented key of [Kube] has its block in `kube play`, except the name of the service, the flag of `kube down` and the key that
+    only chooses the working directory of the service -/
+theorem kubeKeys_complete : ∀ k ∈ Gen.SUPPORTED_KUBE_KEYS,
+    k ∈ kubeKeysRead ∨ k = s "ServiceName" ∨ k = s "KubeDownForce" ∨ k = s "SetWorkingDirectory" := by decide
+
+theorem C02_kube_delta (E : Env) (path : Str) (k : Str) (hk : k ∈ kubeKeysRead) (u u' svc svc' : SUnit)
+    (h : AgreeExcept (s "Kube") k u u')
+    (hc : fromKube E path u = .ok svc) (hc' : fromKube E path u' = .ok svc') :
+    ∃ A g B, kubeSegs E path = A ++ g :: B ∧ k ∈ g.reads ∧
+      HasExec svc "ExecStart" (cmdOf A u ++ g.emit u ++ cmdOf B u) ∧ HasExec svc' "ExecStart" (cmdOf A u ++ g.emit u' ++ cmdOf B u) := by
+  obtain ⟨A, g, B, hs, hkg, e1, e2⟩ := delta_of_segs (s "Kube") (kubeSegs E path) (kubeSegs_local E path)
+    (by rw [kubeSegs_reads]; exact kubeKeys_nodup) k (by rw [kubeSegs_reads]; exact hk) u u' h
+  refine ⟨A, g, B, hs, hkg, ?_, ?_⟩
+  · rw [← e1]; exact fromKube_segs E path u svc hc
+  · rw [← e2]; exact fromKube_segs E path u' svc' hc'
+
 end Cv
